@@ -36,7 +36,7 @@ package ccall
 //@   ensures allnil: result == nil && len(fns) > 1 ==> finished == spawned && nonnil == 0
 //@   ensures realerr: len(fns) > 1 && result != context.Canceled && result != nil ==> reterr[result]
 //@   ensures noswallow: len(fns) > 1 && result == nil ==> real == 0
-//@   ensures single: len(fns) == 1 ==> result == lastret(fns[0], 0) && calls(fns[0]) == old(calls(fns[0])) + 1
+//@   ensures single: len(fns) == 1 && fns[0] != nil ==> result == lastret(fns[0], 0) && calls(fns[0]) == old(calls(fns[0])) + 1
 //@   ensures cancelled: len(fns) >= 1 ==> cancelled(subCtx)
 //@   loop 1 invariant parked: waitCh != nil && gettime(waitCh) == lastcs()
 //@   assert select 1: selects(waitCh) && selects(done(ctx)) && waitCh != nil && gettime(waitCh) == lastcs()
@@ -45,7 +45,7 @@ package ccall
 //@   props C17
 //@   ghost go 1: spawned := spawned + 1
 //@   assert exit: waitCh != nil && waitCh == bcast.ch
-//@   loop 1 invariant count: running == spawned - finished
+//@   loop 1 invariant count: running == spawned - finished && started == spawned && 0 <= spawned && spawned <= rangeindex + 1 && finished == 0
 //
 //@ closure CallConcurrently$3
 //@   props C17
